@@ -126,6 +126,7 @@ def check(prog, ctx):
         ctx.violated('C14.a', 'global:' + q, None, 'mutable namespace-scope object %s is used by %s' % (q, sorted(set(users))))
     ctx.holds('C14.a', 'census', mc, '%d objects with static storage in the closure of Integrate_MC (%d functions)' % (nstat, len(cl)))
 
+    ctx.sub('point_length', point_length, prog, ctx, cl)
     ctx.sub('randomness', randomness, prog, ctx, mc, cl)
     ctx.sub('layout', layout, prog, ctx)
     ctx.sub('affine_region', affine_region, prog, ctx, cl)
@@ -627,6 +628,64 @@ def miser_estimator(prog, ctx):
         return
     ctx.decide('C14.e', 'Miser:estimator-writes', ms, not probs, 'the mean is written as sum(f)/npts on a leaf and as f*a+(1-f)*b of the two halves otherwise',
                '; '.join(probs), witness={'reproducer': 'a Gaussian peaked in one corner of a wide box: the estimate collapses to a single sample (0)'} if probs else None)
+
+
+def point_length(prog, ctx, cl):
+    """C14.f: the point handed to the integrand has exactly dim = region.size()/2 coordinates in every integrator (an
+    integrand may use args.size()); a longer container carries coordinates of earlier calls behind the current ones."""
+    R = 'C14.f'
+    ctx.rule(R, 'the point every integrator hands to the integrand has exactly region.size()/2 coordinates: the container passed to the callback is '
+             'created (or resized) with that length in the same call, not a longer static buffer whose tail keeps coordinates of earlier calls', 3)
+    half = ('region.size()/2', 'region.size()/2.0')
+    for fn in sorted(cl, key=lambda f: f.line):
+        fpar = [p for p in fn.params if p['ty'].startswith('std::function') and 'std::vector<double' in p['ty']]
+        if not fpar or not any(p['name'] == 'region' for p in fn.params):
+            continue
+        cbs = [c for c in calls(fn, into_lambdas=False) if c.get('kind') == 'stdfn' and strip(c.get('fn', {})).get('name') == fpar[0]['name']]
+        if not cbs:
+            continue
+        dims = set(d['name'] for d in local_decls(fn) if d.get('init') is not None and show(d['init']).replace(' ', '') in half)
+        for n_, c in enumerate(cbs):
+            inst = '%s:point#%d' % (fn.name, n_)
+            a0 = strip_casts(c['args'][0])
+            if a0.get('k') != 'Ref':
+                ctx.undecided(R, inst, fn, 'the callback argument %s is not a named container' % show(a0)[:60], line=c.get('l'))
+                continue
+            decl = [d for d in local_decls(fn) if d['id'] == a0.get('id')]
+            length, why = None, ''
+            # a resize/assign of the container before the call sets its length
+            for m in calls(fn, into_lambdas=False):
+                if m.get('kind') == 'method' and (m.get('callee') or {}).get('name') in ('resize', 'assign') and strip(m['obj']).get('id') == a0.get('id') \
+                        and (m.get('l') or 0) < (c.get('l') or 0) and m.get('args'):
+                    length, why = show(strip_casts(m['args'][0])).replace(' ', ''), 'resized'
+            asg = [e for e in all_exprs(fn) if e.get('k') == 'Bin' and e['op'] == '=' and strip(e['lhs']).get('id') == a0.get('id')]
+            if length is None and asg:
+                r0 = strip_casts(asg[0]['rhs'])
+                while r0.get('k') in ('Copy', 'Construct') and (r0.get('args') or r0.get('e')):
+                    r0 = strip_casts(r0['args'][0]) if r0.get('k') == 'Construct' and len(r0.get('args', [])) == 1 else (strip_casts(r0['e']) if r0.get('k') == 'Copy' else r0)
+                    if r0.get('k') == 'Construct':
+                        break
+                if r0.get('k') == 'Call' and (r0.get('callee') or {}).get('q') == L + 'Random_Point':
+                    length, why = 'dim', 'assigned from Random_Point(region)'
+            if length is None and decl and decl[0].get('init') is not None:
+                i0 = strip_casts(decl[0]['init'])
+                while i0.get('k') == 'Copy':
+                    i0 = strip_casts(i0['e'])
+                if i0.get('k') == 'Call' and (i0.get('callee') or {}).get('q') == L + 'Random_Point':
+                    length, why = 'dim', 'initialised from Random_Point(region)'
+                elif i0.get('k') == 'Construct' and i0['q'].startswith('std::vector'):
+                    args_ = [x for x in i0.get('args', []) if x.get('k') != 'DefaultArg']
+                    if args_:
+                        length, why = show(strip_casts(args_[0])).replace(' ', ''), ('static ' if decl[0].get('static') else '') + 'constructed'
+            if length is None:
+                ctx.undecided(R, inst, fn, 'length of `%s` at the callback not determined' % a0.get('name'), line=c.get('l'))
+                continue
+            ok = length in dims or length in half or length == 'dim'
+            ctx.decide(R, inst, fn, ok, '`%s` (%s with length %s) has region.size()/2 coordinates' % (a0.get('name'), why, length),
+                       'the integrand receives `%s`, %s with length %s - not region.size()/2: for a region of fewer dimensions the coordinates behind the current '
+                       'ones are whatever an earlier integration left there' % (a0.get('name'), why, length),
+                       witness={'reproducer': 'sum of all args over [0,1]^2 with "Vegas": 1.0 on a first call, 404.4 after Integrate_MC(1, [100,101]^6, 1000, "Vegas")'} if not ok else None,
+                       line=c.get('l'))
 
 
 def affine_region(prog, ctx, cl):
